@@ -25,6 +25,7 @@ import json
 import os
 import shutil
 import tempfile
+import types
 
 from .. import core
 from .. import structworld as W
@@ -96,6 +97,9 @@ class Live(W.Live):
             return "ok"
         if k == "usecells":     # a cells whose formula reads the reference op[3] as a cells
             self.space(op[1]).new_cells(op[2], formula="lambda x: %s(x) + 1" % op[3])
+            return "ok"
+        if k == "getcells":     # a cells whose formula returns what the name op[3] denotes for formulas of the space
+            self.space(op[1]).new_cells(op[2], formula="lambda: %s" % op[3])
             return "ok"
         if k == "set_src":
             self.space(op[1]).cells[op[2]].formula = "lambda x: 10 * x + %d" % (op[3] if len(op) > 3 else 0)
@@ -194,7 +198,7 @@ def tree_root(simpl, dimpl):
 # ----------------------------------------------------------------------------- one history
 
 class Run:
-    def __init__(self, ops, out, stats, tag):
+    def __init__(self, ops, out, stats, tag, views=True):
         self.ops = ops
         self.out = out
         self.stats = stats
@@ -211,6 +215,8 @@ class Run:
         self.nontrivial = False
         self.silent = set()      # keys already reported in this history
         self.dead = False
+        self.views = views       # read every user-visible view of every reference after every operation
+        self.kept = []           # ItemSpaces created earlier: (op, item, impl) - alive ones are re-checked after edits
 
     # -- driver batching
     def ask(self, lines, handler):
@@ -243,14 +249,8 @@ class Run:
         try:
             for k, op in enumerate(self.ops):
                 self.stats["op:" + op[0]] += 1
-                if op[0] == "item":
-                    self.op_item(k, op)
-                elif op[0] == "roundtrip":
-                    self.op_roundtrip(k, op)
-                elif op[0] == "evalrefs":
-                    self.op_evalrefs(k)
-                else:
-                    self.op_edit(k, op)
+                if not self.step(k, op):
+                    break
                 if self.dead or unkeyed(self.out) >= 4:
                     break
             self.flush()
@@ -263,6 +263,30 @@ class Run:
             if self.tmp:
                 shutil.rmtree(self.tmp, ignore_errors=True)
         return self.nontrivial
+
+    def step(self, k, op):
+        """one operation with its observations.  An exception that comes out of the implementation while the
+        harness looks at the model (not while applying the operation: that is the operation's result) is an
+        observation about the implementation and ends the history as a failure, not the check as a crash"""
+        try:
+            if op[0] == "item":
+                self.op_item(k, op)
+            elif op[0] == "roundtrip":
+                self.op_roundtrip(k, op)
+            elif op[0] == "evalrefs":
+                self.op_evalrefs(k)
+            else:
+                self.op_edit(k, op)
+            return True
+        except core.Infra:
+            raise
+        except Exception as e:
+            if not core.raised_by_impl(e):
+                raise
+            self.fail("the model cannot be observed after %s: modelx raised %s" % (op[0], core.impl_error_text(e)), k)
+            self.lines, self.pending = [], []
+            self.dead = True
+            return False
 
     # -- edits
     def op_edit(self, k, op):
@@ -526,8 +550,93 @@ class Run:
                     cur[id(r)] = (r, dr, dr.refmode)
         self.prevdef = cur
 
+    # -- every view of a reference shows the binding the reference has
+    def views_agree(self, k):
+        """What a reference denotes is observable in several ways: attribute access on the space, the `refs`
+        mapping, the mapping of own references, the namespace formulas are bound to, a formula that reads the
+        name, the reference proxy.  All of them must show the object the reference is bound to NOW (the binding
+        itself is compared with the statement by oracle_static).  Reading the views also brings the lazily
+        evaluated maps up to date BEFORE the next edit - a re-derivation that updates a reference in place and
+        forgets to tell the maps is visible only then."""
+        if not self.views:
+            return
+        live = self.live
+        mname = live.m.name
+
+        def same(a, b):
+            if isinstance(a, Interface) or isinstance(b, Interface):
+                return a is b
+            return a == b
+
+        for path, s in W.all_spaces(live.m):
+            simpl = s._impl
+            for name, r in list(simpl.own_refs.items()):
+                want = r.interface
+                views = [("attribute access %s.%s" % (path, name), lambda: getattr(s, name)),
+                         ("%s.refs[%r]" % (path, name), lambda: s.refs[name]),
+                         ("the own-reference mapping of %s under %r" % (path, name), lambda: s._own_refs[name]),
+                         ("the namespace the formulas of %s are bound to, under %r," % (path, name),
+                          lambda: simpl.namespace.interfaces[name]),
+                         ("the reference proxy of %s.%s" % (path, name),
+                          lambda: mx.get_object("%s.%s.%s" % (mname, path, name), as_proxy=True).value)]
+                if "get_" + name in s.cells:
+                    views.append(("the formula %s.get_%s, which returns what it reads under the name," % (path, name),
+                                  lambda: s.cells["get_" + name]()))
+                for what, f in views:
+                    self.stats["views_compared"] += 1
+                    try:
+                        with quiet():
+                            got = f()
+                    except Exception as e:
+                        self.fail("%s raises %s although the space has the reference" % (what, err_kind(e)), k)
+                        continue
+                    if isinstance(got, types.MethodType) and isinstance(got.__self__, mx.core.cells.CellsImpl):
+                        got = got.__self__.interface      # formulas see a cells as the bound `call` of its implementation
+                    if not same(got, want):
+                        self.fail("%s shows %s but the reference is bound to %s (mode %s%s)" % (
+                            what, W.val_repr(got) if isinstance(got, Interface) else repr(got),
+                            W.val_repr(want) if isinstance(want, Interface) else repr(want), r.refmode,
+                            ", derived" if r.is_derived() else ""), k)
+                        break
+
+    def recheck_items(self, k):
+        """ItemSpaces created earlier in the history that are still alive after this operation must show what
+        the statement says for the references of their base tree as they are NOW (an edit that re-binds a
+        reference of the base either discards the ItemSpace or updates it)"""
+        kept = []
+        for op, item, impl in self.kept:
+            try:
+                alive = item._is_valid() and item._impl is impl
+            except Exception:
+                alive = False
+            if not alive:
+                continue
+            kept.append((op, item, impl))
+            try:
+                base = impl._dynbase
+                if not base.interface._is_valid():
+                    continue
+            except Exception:
+                continue
+            plan = []
+
+            def walk(b, rel):
+                for name, br in b.own_refs.items():
+                    plan.append((rel, name, br))
+                for cn, ch in b.named_spaces.items():
+                    walk(ch, rel + [cn])
+            walk(base, [])
+            self.stats["kept_items_rechecked"] += 1
+            self.oracle_item(k, ["item", base.idstr], base, plan, item, None, again=True)
+        self.kept = kept
+
     # -- the static snapshot: correspondence + oracle
     def snapshot(self, k, after_read=False):
+        self.snapshot_refs(k, after_read)
+        self.views_agree(k)
+        self.recheck_items(k)
+
+    def snapshot_refs(self, k, after_read=False):
         live = self.live
         lines = world_lines(live)
         n0 = len(lines)
@@ -569,7 +678,14 @@ class Run:
                 # reference was last derived is history (children are not inherited); outside the statement
                 desc = (c[0] == "obj" and under(b.idstr, c[1]) and c[1] != b.idstr
                         and not (c[1].count(".") == b.idstr.count(".") + 1 and c[1].rsplit(".", 1)[1] in b.cells))
-                items.append((path, name, got, obs, ident, alt, desc, s, r, b, dr, tree_root(simpl, b), c[0] == "null"))
+                tr0 = tree_root(simpl, b)
+                # a target in ANOTHER subtree of the enclosing pair of spaces (a sibling of the definer, something
+                # below it): the sub space holds a null object when the counterpart did not exist yet at the time of
+                # the last derivation - history again, and outside the statement (it speaks of the defining space
+                # and its cells under static derivation)
+                cross = (c[0] == "obj" and got[0] == "null" and tr0 is not None and under(tr0[1], c[1])
+                         and not under(b.idstr, c[1]))
+                items.append((path, name, got, obs, ident, alt, desc or cross, s, r, b, dr, tr0, c[0] == "null"))
         if not items:
             self.last = {}
             return
@@ -692,6 +808,7 @@ class Run:
     # -- formulas reading the references evaluate
     def op_evalrefs(self, k):
         live = self.live
+        self.views_agree(k)
         for path, s in W.all_spaces(live.m):
             for cn in list(s.cells):
                 if not cn.startswith("use_"):
@@ -801,12 +918,10 @@ class Run:
             self.stats["dyn_refs_compared"] += len(plan)
         self.ask(lines, handler)
         self.flush()
-        # leave no instance behind: the next edit would delete it anyway
-        try:
-            with quiet():
-                P._impl.del_all_itemspaces()
-        except Exception:
-            pass
+        # the instance stays: an edit that changes what it was built from has to discard (or update) it, which
+        # recheck_items looks at after every later operation
+        if item is not None:
+            self.kept = [x for x in self.kept if x[1] is not item][-6:] + [(op, item, item._impl)]
 
     def dyn_classify(self, x, br, rootimpl):
         if x is br:
@@ -824,7 +939,7 @@ class Run:
                 return "other:" + getattr(x, "idstr", "?")
         return "dyn " + (".".join(reversed(names)) or "-")
 
-    def oracle_item(self, k, op, base, plan, item, err):
+    def oracle_item(self, k, op, base, plan, item, err, again=False):
         """statement for ItemSpace trees, on the implementation alone; returns the references (index in
         plan) whose rejection is by design: relative mode with a target outside the base"""
         live = self.live
@@ -886,14 +1001,42 @@ class Run:
                 except Exception:
                     want = None
                 if want is None or got is not want:
-                    self.fail("in the ItemSpace of %s the %s reference %s.%s to %s (inside the base's tree) denotes %s, "
+                    self.fail("in the ItemSpace of %s%s the %s reference %s.%s to %s (inside the base's tree) denotes %s, "
                               "not the corresponding object of the dynamic tree" % (
-                                  root, dmode, ".".join([root] + rel), name, tpath, W.val_repr(got)), k)
+                                  root, " (created before the last edit, still alive)" if again else "",
+                                  dmode, ".".join([root] + rel), name, tpath, W.val_repr(got)), k)
+                    continue
             else:
+                want = T
                 if got is not T:
-                    self.fail("in the ItemSpace of %s the %s reference %s.%s to %s (%s) denotes %s, not the original" % (
-                        root, dmode, ".".join([root] + rel), name, tpath,
+                    self.fail("in the ItemSpace of %s%s the %s reference %s.%s to %s (%s) denotes %s, not the original" % (
+                        root, " (created before the last edit, still alive)" if again else "", dmode,
+                        ".".join([root] + rel), name, tpath,
                         "absolute" if dmode == "absolute" else "outside the base's tree", W.val_repr(got)), k)
+                    continue
+            # the other views of the reference inside the dynamic space: the `refs` mapping, the namespace its
+            # formulas are bound to, a formula that reads the name
+            views = [("%s.refs[%r]", lambda: dyn.refs[name]),
+                     ("the namespace the formulas are bound to in %s, under %r,", lambda: dyn._impl.namespace.interfaces[name])]
+            if "get_" + name in dyn.cells:
+                views.append(("the formula get_%s of %%s, which returns what it reads under the name %%r," % name,
+                              lambda: dyn.cells["get_" + name]()))
+            for what, f in views:
+                self.stats["item_views_compared"] += 1
+                try:
+                    with quiet():
+                        v = f()
+                except Exception as e:
+                    self.fail("in the ItemSpace of %s %s raises %s although the dynamic space has the reference" % (
+                        root, what % (".".join([root + "[..]"] + rel), name), err_kind(e)), k)
+                    break
+                if isinstance(v, types.MethodType) and isinstance(v.__self__, mx.core.cells.CellsImpl):
+                    v = v.__self__.interface
+                if v is not want:
+                    self.fail("in the ItemSpace of %s %s shows %s but attribute access (and the statement) give %s" % (
+                        root, what % (".".join([root + "[..]"] + rel), name),
+                        W.val_repr(v) if isinstance(v, Interface) else repr(v), W.val_repr(want)), k)
+                    break
         if err is not None:
             keys = [v for v in recog.values()]
             if not keys:
@@ -1020,18 +1163,38 @@ def mk_spaces(ops, names, bases_last=None, created=None):
 RN = {"auto": "ra", "relative": "rl", "absolute": "rb"}
 
 
-def grid_case(modes, placement, holder, ddepth, sdepth, deriver):
-    """the operations of one configuration, or None when the combination makes no sense"""
+SIB_PLACEMENTS = ["sib", "sibcells", "sibgrand", "sibgrcells"]
+
+
+def grid_case(modes, placement, holder, ddepth, sdepth, deriver, sib=None):
+    """the operations of one configuration, or None when the combination makes no sense.
+    sib = "before" / "after": the definer has a SECOND child space Sib (cells ss, child Sg with cells gg) created
+    before / after the child Ch that may hold the reference - the target placements sib, sibcells, sibgrand,
+    sibgrcells lie across the children, in both creation orders"""
     ops = []
     created = set()
     dn = chain(ddepth, "Def", "Pa")
     D = ".".join(dn)
     mk_spaces(ops, dn, created=created)
     ops.append(["cells", D, "cc", 1])
+    if (placement in SIB_PLACEMENTS) != (sib is not None):
+        return None
+
+    def mk_sib(parent, bases=None):
+        ops.append(["new_space", parent, "Sib", [bases + ".Sib"] if bases else []])
+        if not bases:
+            ops.append(["cells", parent + ".Sib", "ss", 6])
+        ops.append(["new_space", parent + ".Sib", "Sg", [bases + ".Sib.Sg"] if bases else []])
+        if not bases:
+            ops.append(["cells", parent + ".Sib.Sg", "gg", 7])
+    if sib == "before":
+        mk_sib(D)
     ops.append(["new_space", D, "Ch", []])
     ops.append(["cells", D + ".Ch", "dd", 2])
     ops.append(["new_space", D + ".Ch", "Gr", []])
     ops.append(["cells", D + ".Ch.Gr", "ee", 3])
+    if sib == "after":
+        mk_sib(D)
     ops.append(["new_space", "-", "Out", []])
     ops.append(["cells", "Out", "oo", 4])
     if ddepth > 1:
@@ -1042,10 +1205,14 @@ def grid_case(modes, placement, holder, ddepth, sdepth, deriver):
         "chcells": ("obj", D + ".Ch.dd"), "grand": ("obj", D + ".Ch.Gr"), "grcells": ("obj", D + ".Ch.Gr.ee"),
         "up": ("obj", ".".join(dn[:-1]) + ".pp") if ddepth > 1 else None,
         "out": ("obj", "Out"), "outcells": ("obj", "Out.oo"), "plain": 7,
+        "sib": ("obj", D + ".Sib"), "sibcells": ("obj", D + ".Sib.ss"), "sibgrand": ("obj", D + ".Sib.Sg"),
+        "sibgrcells": ("obj", D + ".Sib.Sg.gg"),
     }[placement]
     if target is None:
         return None
-    iscells = placement in ("cells", "chcells", "grcells", "up", "outcells")
+    if sib is not None and deriver not in DYNAMIC_DERIVERS:
+        return None         # (across children nothing is said about static derivation: children are not inherited)
+    iscells = placement in ("cells", "chcells", "grcells", "up", "outcells", "sibcells", "sibgrcells")
     sn = chain(sdepth, "Sub", "Qa")
     S = ".".join(sn)
 
@@ -1118,8 +1285,12 @@ def grid_case(modes, placement, holder, ddepth, sdepth, deriver):
         define()
         mk_spaces(ops, sn[:-1], created=created)
         ops.append(["new_space", ".".join(sn[:-1]) or "-", "Sub", [D]])
+        if sib == "before":
+            mk_sib(S, D)
         ops.append(["new_space", S, "Ch", [D + ".Ch"]])
         ops.append(["new_space", S + ".Ch", "Gr", [D + ".Ch.Gr"]])
+        if sib == "after":
+            mk_sib(S, D)
         ops.append(["params", S])
         ops.append(["item", S])
     elif deriver == "itemderivedchild":
@@ -1130,8 +1301,12 @@ def grid_case(modes, placement, holder, ddepth, sdepth, deriver):
         define()
         mk_spaces(ops, sn[:-1], created=created)
         ops.append(["new_space", ".".join(sn[:-1]) or "-", "Sub", [D]])
+        if sib == "before":
+            mk_sib(S, D)
         ops.append(["new_space", S, "Ch", [D + ".Ch"]])
         ops.append(["new_space", S + ".Ch", "Gr", [D + ".Ch.Gr"]])
+        if sib == "after":
+            mk_sib(S, D)
         ops.append(["params", S + ".Ch"])
         ops.append(["item", S + ".Ch"])
     elif deriver == "itemchange":
@@ -1166,6 +1341,17 @@ def grid(maxdepth):
                             ops = grid_case(modes, placement, holder, ddepth, sdepth, deriver)
                             if ops is not None:
                                 yield ("+".join(modes), placement, holder, ddepth, sdepth, deriver), ops
+    # references ACROSS the child spaces of the definer: the target lies in (is) a sibling of the child that holds
+    # the reference, the sibling created before / after that child (ItemSpace derivers only)
+    for deriver in DYNAMIC_DERIVERS:
+        for order in ("before", "after"):
+            for ddepth in range(1, maxdepth):
+                for holder in HOLDERS:
+                    for placement in SIB_PLACEMENTS:
+                        for modes in (("auto", "absolute"), ("relative",)):
+                            ops = grid_case(modes, placement, holder, ddepth, 1, deriver, sib=order)
+                            if ops is not None:
+                                yield ("+".join(modes), placement + "-" + order, holder, ddepth, 1, deriver), ops
 
 
 # ----------------------------------------------------------------------------- scenarios (edit histories)
@@ -1248,7 +1434,69 @@ def scenarios():
         ["remove_bases", "Sub", ["Bone"]], ["add_bases", "Sub", ["Bone"]],
         ["del_ref", "Btwo", "rr"], ["set_ref", "Sub", "rs", ("obj", "Sub"), "auto"], ["del_ref", "Sub", "rs"],
         ["roundtrip"]]))
+    S += new_ref_family()
+    S += cross_child_family()
     return S
+
+
+def new_ref_family():
+    """A reference created in a base (new_ref) AFTER sub spaces exist that derive the name from a later base - possible
+    when the name also exists at model level.  The sub spaces' references are re-pointed in place; every view of them
+    (attribute, refs, namespace, a formula, an ItemSpace built before the edit) was read before the edit and must
+    show the new binding afterwards.  new mode x mode of the later base's reference x target kind x shape."""
+    fam = []
+    for new_mode in MODES:
+        for old_mode in ("absolute", "auto"):
+            for tk in ("cells", "space"):
+                for shape in ("via-sub", "direct", "sub-of-sub"):
+                    t1 = ("obj", "Bone.foo") if tk == "cells" else ("obj", "Bone")
+                    t2 = ("obj", "Btwo.bar") if tk == "cells" else ("obj", "Btwo")
+                    ops = [["set_mref", "rx", 0], ["new_space", "-", "Bone", []], ["new_space", "-", "Btwo", []],
+                           ["cells", "Bone", "foo", 1], ["cells", "Btwo", "bar", 2], ["set_ref", "Btwo", "rx", t2, old_mode]]
+                    if shape == "via-sub":
+                        ops += [["new_space", "-", "Sone", ["Bone"]], ["new_space", "-", "Sub", ["Sone", "Btwo"]]]
+                    elif shape == "direct":
+                        ops += [["new_space", "-", "Sub", ["Bone", "Btwo"]]]
+                    else:
+                        ops += [["new_space", "-", "Sone", ["Bone", "Btwo"]], ["new_space", "-", "Sub", ["Sone"]]]
+                    ops += [["getcells", "Sub", "get_rx", "rx"]]
+                    if tk == "cells":
+                        ops += [["usecells", "Sub", "use_rx", "rx"]]
+                    ops += [["params", "Sub"], ["item", "Sub"], ["evalrefs"],
+                            ["set_ref", "Bone", "rx", t1, new_mode], ["evalrefs"], ["item", "Sub"],
+                            ["del_ref", "Bone", "rx"], ["evalrefs"], ["item", "Sub"]]
+                    fam.append(("new-ref-earlier-base/%s-over-%s/%s/%s" % (new_mode, old_mode, tk, shape), ops))
+    return fam
+
+
+def cross_child_family():
+    """References ACROSS the child spaces of a parametrised space, under edits.  S has the children C (with a child K)
+    and D (with cells foo and a child E with cells baz); a reference held by C or by C.K points at the sibling D, at
+    its cells, at its descendant E, at E's cells - with D created before or after C (the ItemSpace builds its
+    children in creation order, so one of the two orders is a FORWARD reference), in every mode.  The ItemSpace is
+    built, rebuilt after a formula change in the target, after a new cells in S, and after write/read; every view of
+    the reference inside the ItemSpace is compared with what the mode says each time."""
+    fam = []
+    targets = {"space": "S.D", "cells": "S.D.foo", "descendant": "S.D.E", "descendant-cells": "S.D.E.baz"}
+    for order in ("target-first", "holder-first"):
+        for mode in MODES:
+            for tk, tpath in targets.items():
+                for holder in ("S.C", "S.C.K"):
+                    mk_d = [["new_space", "S", "D", []], ["cells", "S.D", "foo", 1], ["new_space", "S.D", "E", []],
+                            ["cells", "S.D.E", "baz", 2]]
+                    mk_c = [["new_space", "S", "C", []], ["cells", "S.C", "bar", 3], ["new_space", "S.C", "K", []],
+                            ["cells", "S.C.K", "kk", 4]]
+                    ops = [["new_space", "-", "S", []], ["cells", "S", "top", 0]]
+                    ops += (mk_d + mk_c) if order == "target-first" else (mk_c + mk_d)
+                    ops += [["set_ref", holder, "rx", ("obj", tpath), mode], ["getcells", holder, "get_rx", "rx"]]
+                    if tk.endswith("cells"):
+                        ops += [["usecells", holder, "use_rx", "rx"]]
+                    ops += [["params", "S"], ["item", "S"], ["evalrefs"],
+                            ["set_src", "S.D", "foo", 5], ["item", "S"],
+                            ["cells", "S", "late", 6], ["item", "S"],
+                            ["roundtrip"], ["item", "S"], ["evalrefs"]]
+                    fam.append(("cross-child/%s/%s/%s/%s" % (order, mode, tk, holder), ops))
+    return fam
 
 
 def known_witnesses():
@@ -1314,12 +1562,35 @@ def gen_next(rng, live, ops):
     for p, sp in spaces:
         objs.append(p)
         for c in sp.cells:
-            if not c.startswith("use_"):
+            if not c.startswith(("use_", "get_")):
                 objs.append(p + "." + c)
 
     def has_subs(sp):
         return len(sp._impl.spmgr._get_subs(sp._impl)) > 0
 
+    def tail():
+        q = rng.random()
+        if q < 0.3:
+            # a model-level reference named like the references of the spaces (it makes the name visible everywhere,
+            # so that a base may get a reference its sub spaces already derive from elsewhere), or its removal
+            have = [n for n in REFN if n in live.m.refs]
+            if have and rng.random() < 0.25:
+                return ["del_mref", rng.choice(have)]
+            return ["set_mref", rng.choice(REFN), rng.randint(0, 9)]
+        if q < 0.5:
+            plain = [n for n, rr in simpl.own_refs.items() if rr.is_defined() and ("get_" + n) not in s.cells]
+            if plain:
+                n = rng.choice(plain)
+                return ["getcells", path, "get_" + n, n]
+        refs_cells = [n for n, rr in simpl.own_refs.items()
+                      if rr.is_defined() and isinstance(rr.interface, mx.core.cells.Cells) and ("use_" + n) not in s.cells]
+        if refs_cells:
+            n = rng.choice(refs_cells)
+            return ["usecells", path, "use_" + n, n]
+        return ["evalrefs"]
+
+    if 0.46 <= r < 0.50:
+        return tail()
     if r < 0.13:
         # new space, often deriving, sometimes nested with the name of a base's child
         parent = rng.choice(["-"] + [p for p in paths if p.count(".") < 2])
@@ -1349,7 +1620,7 @@ def gen_next(rng, live, ops):
         free = [c for c in CELLN if c not in s.cells and c not in s._impl.own_refs]
         if free:
             return ["cells", path, rng.choice(free), rng.randint(0, 5)]
-    if r < 0.50:
+    if r < 0.46:
         # assign a reference: new name, re-assignment (mode / target change), override in a sub
         mode = rng.choice(MODES)
         own = [n for n, rr in simpl.own_refs.items() if rr.is_defined()]
@@ -1363,14 +1634,21 @@ def gen_next(rng, live, ops):
             free = [n for n in REFN if n not in simpl.own_refs and n not in s.cells]
             # a new reference in a base whose sub spaces already have the name from another
             # definer is C03's subject (new_ref skips them): not generated here
-            free = [n for n in free if not any(n in x.own_refs for x in simpl.spmgr._get_subs(simpl))]
+            # - unless a model-level reference of the name exists: then new_ref accepts the name and has to
+            # re-point the sub spaces that derived it from a later base (the views of those sub spaces included)
+            free = [n for n in free if n in live.m.refs or not any(n in x.own_refs for x in simpl.spmgr._get_subs(simpl))]
             if not free:
                 return ["evalrefs"]
             nm = rng.choice(free)
         q = rng.random()
         inside = [o for o in objs if under(path, o)]
+        # elsewhere in the tree the holder sits in: a space above it, a sibling (created before or after it), the
+        # sibling's cells and descendants - a reference across the children of one space
+        across = [o for o in objs if under(path.split(".")[0], o) and not under(path, o)] if "." in path else []
         if q < 0.55 and inside:
             tgt = ("obj", rng.choice(inside))
+        elif q < 0.72 and across:
+            tgt = ("obj", rng.choice(across))
         elif q < 0.9:
             tgt = ("obj", rng.choice(objs))
         else:
@@ -1384,11 +1662,11 @@ def gen_next(rng, live, ops):
         if own:
             return ["del_ref", path, rng.choice(own)]
     if r < 0.60:
-        der = [c for c in s.cells if s.cells[c]._is_derived() and not c.startswith("use_")]
+        der = [c for c in s.cells if s.cells[c]._is_derived() and not c.startswith(("use_", "get_"))]
         if der:
             return ["set_src", path, rng.choice(der), rng.randint(0, 3)]
     if r < 0.66:
-        own = [c for c in s.cells if not s.cells[c]._is_derived() and not c.startswith("use_")]
+        own = [c for c in s.cells if not s.cells[c]._is_derived() and not c.startswith(("use_", "get_"))]
         if own:
             return ["del_cells", path, rng.choice(own)]
     if r < 0.71:
@@ -1403,7 +1681,7 @@ def gen_next(rng, live, ops):
         if db:
             return ["remove_bases", path, [rng.choice(db)]]
     if r < 0.79:
-        own = [c for c in s.cells if not s.cells[c]._is_derived() and not c.startswith("use_")]
+        own = [c for c in s.cells if not s.cells[c]._is_derived() and not c.startswith(("use_", "get_"))]
         free = [c for c in CELLN if c not in s.cells
                 and not any(c in x.namespace for x in simpl.spmgr._get_subs(simpl))]
         if own and free:
@@ -1429,12 +1707,7 @@ def gen_next(rng, live, ops):
             return ["params", path + "." + rng.choice(list(s.spaces))]
     if r < 0.96:
         return ["roundtrip"]
-    refs_cells = [n for n, rr in simpl.own_refs.items()
-                  if rr.is_defined() and isinstance(rr.interface, mx.core.cells.Cells) and ("use_" + n) not in s.cells]
-    if refs_cells:
-        n = rng.choice(refs_cells)
-        return ["usecells", path, "use_" + n, n]
-    return ["evalrefs"]
+    return tail()
 
 
 def run_random(rng, n_ops, out, stats, tag):
@@ -1446,19 +1719,20 @@ def run_random(rng, n_ops, out, stats, tag):
     try:
         k = 0
         while k < n_ops and not run.dead and unkeyed(out) < 4:
-            op = gen_next(rng, live, ops)
+            try:
+                op = gen_next(rng, live, ops)
+            except core.Infra:
+                raise
+            except Exception as e:
+                if not core.raised_by_impl(e) or not ops:
+                    raise
+                run.fail("the model cannot be observed after %s: modelx raised %s" % (ops[-1][0], core.impl_error_text(e)), k - 1)
+                break
             ops.append(op)
             stats["op:" + op[0]] += 1
-            if op[0] == "item":
-                run.op_item(k, op)
-            elif op[0] == "roundtrip":
-                run.op_roundtrip(k, op)
-                live = run.live      # (the model object was replaced)
-            elif op[0] == "evalrefs":
-                run.op_evalrefs(k)
-            else:
-                run.op_edit(k, op)
-            live = run.live
+            if not run.step(k, op):
+                break
+            live = run.live      # (a roundtrip replaces the model object)
             k += 1
         run.flush()
     finally:
